@@ -104,6 +104,11 @@ func c08prop(ev *evid.Rec) func(rt *rapid.T) {
 			k = genOffset(rt, "offset", size)
 		}
 		inFolder := rapid.Bool().Draw(rt, "infolder")
+		// now and then the file lies very deep: more folders than fit one byte of the path's 16-bit item count
+		deep := 0
+		if rapid.IntRange(0, 11).Draw(rt, "deepPath") == 0 {
+			deep = rapid.SampledFrom([]int{254, 255, 256, 257, 300}).Draw(rt, "depth")
+		}
 		own := rapid.IntRange(0, 3).Draw(rt, "ownroot") == 0
 		viaAlias := !storedInfo && !storedRsrc && len(name) < 200 && rapid.IntRange(0, 3).Draw(rt, "viaAlias") == 0
 		// how the client's bytes on the transfer connection are cut into segments ("" = one Write per message)
@@ -127,7 +132,18 @@ func c08prop(ev *evid.Rec) func(rt *rapid.T) {
 			}
 			dir := base
 			var path []byte
-			if inFolder {
+			if deep > 0 {
+				items := make([]string, deep)
+				for i := range items {
+					items[i] = "d"
+				}
+				dir = filepath.Join(base, strings.Join(items, "/"))
+				must(os.MkdirAll(dir, 0o755))
+				path = p1(items...)
+				// files of the same name nearer to the root are other files
+				must(os.WriteFile(filepath.Join(base, name), append([]byte("the root's file of that name: "), content...), 0o644))
+				must(os.WriteFile(filepath.Join(base, "d", name), append([]byte("another one: "), content...), 0o644))
+			} else if inFolder {
 				dir = filepath.Join(base, "sub folder")
 				must(os.MkdirAll(dir, 0o755))
 				path = p1("sub folder")
